@@ -588,7 +588,18 @@ def structural_index(ip, t, idx):
         acc = 0
         rest = list(parts)
         while rest and acc < k:
-            ln = ip.ctx.fixed_len(rest[-1])
+            last = rest[-1]
+            if z3.is_string_value(last):
+                from .api import zstr
+                lit = zstr(last)
+                if len(lit) > k - acc:
+                    # cut inside a literal part
+                    cutn = k - acc
+                    rest[-1] = z3.StringVal(lit[:-cutn])
+                    tail.insert(0, z3.StringVal(lit[-cutn:]))
+                    acc = k
+                    break
+            ln = ip.ctx.fixed_len(last)
             if ln is None:
                 return None
             acc += ln
@@ -719,8 +730,9 @@ def concat_strs(ip, parts):
     return wrap(z3.Concat(*terms))
 
 
-NOUPPER = z3.Star(z3.Union(z3.Range('\x00', '@'), z3.Range('[', '\x7f')))     # ASCII without A-Z
-NOLOWER = z3.Star(z3.Union(z3.Range('\x00', '`'), z3.Range('{', '\x7f')))     # ASCII without a-z
+_CASELESS_EXTRA = [z3.Re(c) for c in '½¼§–—']      # non-ASCII characters of the patterns: no case (A-STR)
+NOUPPER = z3.Star(z3.Union(z3.Range('\x00', '@'), z3.Range('[', '\x7f'), *_CASELESS_EXTRA))     # no A-Z
+NOLOWER = z3.Star(z3.Union(z3.Range('\x00', '`'), z3.Range('{', '\x7f'), *_CASELESS_EXTRA))     # no a-z
 
 _lower_fn = z3.Function('py_lower', STR, STR)
 _upper_fn = z3.Function('py_upper', STR, STR)
@@ -984,6 +996,65 @@ def _str_strip(ip, s, which, chars):
         return s
     cset = z3.Union(*[z3.Re(c) for c in cs]) if len(cs) > 1 else z3.Re(cs[0])
     star = z3.Star(cset)
+    allc0 = z3.AllChar(z3.ReSort(STR))
+    notc0 = z3.Diff(allc0, cset)
+    any0 = z3.Full(z3.ReSort(STR))
+    stx = z3.simplify(st)
+    if z3.is_app(stx) and stx.decl().kind() == z3.Z3_OP_SEQ_CONCAT:
+        # concatenation: strip literal ends natively as long as the neighbouring symbolic part provably neither is empty nor
+        # begins / ends with a strip character
+        from .ctx import lang_relation
+        from .api import zstr
+        from .rx import _flat_parts
+        parts = _flat_parts(stx)
+        ok = True
+
+        def solid(p, left):
+            Lp = ip.ctx.lang_of.get(p.get_id())
+            if Lp is None:
+                return False
+            want = z3.Concat(notc0, any0) if left else z3.Concat(any0, notc0)
+            return lang_relation(Lp, want) is True
+        if which in ('strip', 'lstrip'):
+            while parts and ok:
+                p = parts[0]
+                if z3.is_string_value(p):
+                    t = zstr(p).lstrip(''.join(cs))
+                    if t == '':
+                        parts.pop(0)
+                        continue
+                    parts[0] = z3.StringVal(t)
+                    break
+                ok = solid(p, True)
+                break
+        if which in ('strip', 'rstrip'):
+            while parts and ok:
+                p = parts[-1]
+                if z3.is_string_value(p):
+                    t = zstr(p).rstrip(''.join(cs))
+                    if t == '':
+                        parts.pop()
+                        continue
+                    parts[-1] = z3.StringVal(t)
+                    break
+                ok = solid(p, False)
+                break
+        if ok:
+            if not parts:
+                return ''
+            return wrap(z3.Concat(*parts) if len(parts) > 1 else parts[0])
+    L = ip.ctx.lang_of.get(z3.simplify(st).get_id())
+    if L is not None:
+        # nothing to strip: decided from the language fact of the string alone
+        from .ctx import lang_relation
+        if which == 'strip':
+            core0 = z3.Union(z3.Re(''), notc0, z3.Concat(notc0, any0, notc0))
+        elif which == 'lstrip':
+            core0 = z3.Union(z3.Re(''), z3.Concat(notc0, any0))
+        else:
+            core0 = z3.Union(z3.Re(''), z3.Concat(any0, notc0))
+        if lang_relation(L, core0) is True:
+            return s
     l = z3.String(fresh_name('strip_l'))
     m = z3.String(fresh_name('strip_m'))
     r = z3.String(fresh_name('strip_r'))
